@@ -20,9 +20,12 @@ func (consumer *Consumer) Loop() {
 		if consumer.lifecycle.IsKilled() {
 			return
 		}
+		// the step must be read before the queues are tested: once it is
+		// StepClose no producer is left, so empty queues stay empty
+		step := consumer.lifecycle.Step()
 		if len(consumer.loopData.chans.dirChan) == 0 &&
 			len(consumer.loopData.chans.fileChan) == 0 {
-			if consumer.lifecycle.Step() == StepClose {
+			if step == StepClose {
 				return
 			}
 			runtime.Gosched()
